@@ -363,6 +363,8 @@ def valid_ops(rng: random.Random, s: State, tune: dict) -> list[tuple[str, float
     if s.can_pull_chips():
         out.append(('pull -', 3))
         out.append((f'pull {rng.choice(list(s.chips_pulling_indices))}', 2))
+    for line in boundary_probes(rng, s):
+        out.append((line, 0.4))
     # keep only what the implementation's own query admits *for these arguments*
     keep = []
     for line, w in out:
@@ -372,6 +374,66 @@ def valid_ops(rng: random.Random, s: State, tune: dict) -> list[tuple[str, float
         except Exception:  # noqa: BLE001
             keep.append((line, w))
     return keep
+
+
+def boundary_probes(rng: random.Random, s: State) -> list[str]:
+    """Arguments just outside what the rules admit at this state (wrong player, one card
+    too many, one chip below/above the bounds, non-positive counts).  They are used as `can`
+    probes (compared with the model) and offered to the valid stream, which keeps them only
+    if the implementation's own query admits them."""
+    out: list[str] = []
+    n = s.player_count
+    if any(s.ante_posting_statuses):
+        out += [f'post_ante {i}' for i in range(n) if not s.ante_posting_statuses[i]][:2]
+    if any(s.blind_or_straddle_posting_statuses):
+        out += [f'post_blind {i}' for i in range(n) if not s.blind_or_straddle_posting_statuses[i]][:2]
+    if any(s.hole_dealing_statuses):
+        for j in rng.sample(range(n), min(n, 3)):
+            pj = len(s.hole_dealing_statuses[j])
+            out.append(f'deal_hole #{pj + 1} {j}')
+            if pj:
+                out.append(f'deal_hole #{pj} {j}')
+            k = pj + 1
+            if len(s.deck_cards) >= k:
+                out.append(f'deal_hole {_cards_text(list(s.deck_cards)[:k])} {j}')
+        out.append('deal_hole #0 -')
+    if any(s.board_dealing_counts):
+        c = max(s.board_dealing_counts)
+        out += [f'deal_board #{c + 1}', 'deal_board #0']
+        if len(s.deck_cards) > c:
+            out.append(f'deal_board {_cards_text(list(s.deck_cards)[:c + 1])}')
+    if s.card_burning_status and len(s.deck_cards) >= 2:
+        out.append(f'burn {_cards_text(list(s.deck_cards)[:2])}')
+    if any(s.standing_pat_or_discarding_statuses) and s.deck_cards:
+        out.append(f'draw {repr(s.deck_cards[0])}')
+    if s.actor_indices:
+        try:
+            mn = s.min_completion_betting_or_raising_to_amount
+            mx = s.max_completion_betting_or_raising_to_amount
+        except Exception:  # noqa: BLE001
+            mn = mx = None
+        if mn is not None:
+            out += [f'cbr {mn - 1}', f'cbr {mx + 1}', f'cbr {mn}', f'cbr {mx}']
+        else:
+            a = s.actor_indices[0]
+            out += [f'cbr {s.stacks[a] + s.bets[a]}', f'cbr {max(s.bets) + 1}']
+        out += ['fold', 'bring_in']
+    if any(s.runout_count_selector_statuses):
+        out += ['runout 0 -', 'runout -1 -']
+        out += [f'runout 2 {i}' for i in range(n) if not s.runout_count_selector_statuses[i]][:1]
+        out += [f'runout 2 {i}' for i in range(n) if s.runout_count_selector_statuses[i]][-1:]
+    if s.showdown_indices:
+        out += [f'show - {i}' for i in range(n) if i not in s.showdown_indices][:1]
+        i = s.showdown_indices[-1]
+        if s.hole_cards[i] and all(s.hole_cards[i]):
+            hc = list(s.hole_cards[i])
+            out.append(f'show {_cards_text(hc[:-1]) if len(hc) > 1 else "="} {i}')
+            out.append(f'show {_cards_text(hc + hc[:1])} {i}')
+    if any(s.hand_killing_statuses):
+        out += [f'kill {i}' for i in range(n) if not s.hand_killing_statuses[i]][:1]
+    if any(s.chips_pulling_statuses):
+        out += [f'pull {i}' for i in range(n) if not s.chips_pulling_statuses[i]][:1]
+    return out
 
 
 def malformed_op(rng: random.Random, s: State) -> str:
